@@ -617,6 +617,11 @@ def run_launcher(ctx: RunCtx) -> None:
         worker's late unlink (lstat/unlink of _unlink_bound_unix_socket split by a launcher's rebind)."""
         for x in victims:
             for u in w.usurped:
+                if u["owner_pid"] == x.pid and not u.get("identity_check_passed_earlier"):
+                    return (",after-worker-unlinked-a-socket-it-never-identified-as-its-own",
+                            f"; fs history: at event {u['seq']} worker pid={u['by_pid']} (own socket inode {u['by_own_ino']}) unlinked "
+                            f"{u['path']} whose inode {u['ino']} was the listening socket of worker pid={u['owner_pid']} - and its last "
+                            f"look at that path had NOT shown its own inode (no identity check, or its result was ignored)")
                 if u["owner_pid"] == x.pid:
                     return (",after-exiting-worker-unlinked-successor-socket",
                             f"; fs history: at event {u['seq']} exiting worker pid={u['by_pid']} (own socket inode "
